@@ -273,3 +273,63 @@ Theorem C08_conversion_nonvacuous :
   lx_vesting (lkx_run lkx_ex2_history lkx_ex_start) = false /\ lk_bal (lx_s (lkx_run lkx_ex2_history lkx_ex_start)) = 250.
 Proof. exact lkx_ex2_runs. Qed.
 Print Assumptions C08_conversion_nonvacuous.
+
+(** ---- MsgConvertIntoVestingAccount{Stake:true}: the auto-stake step ----
+    [LxConvertIntoStake signer merge g start' end' lockup' vesting' gstart gv] = the message with the stake option:
+    the schedule part is [LxConvertInto] (conversion of a plain account, or a merge by the funder), then
+    delegateVestedCoins stakes [lk_grant_vested gstart gv now] = ReadSchedule over the vesting periods CARRIED BY THE
+    MESSAGE (the vested part of this grant only) by calling stakingKeeper.Delegate directly, i.e. WITHOUT the guard
+    validateDelegationAmountNotUnvested ([lk_stake]: only balance >= amount).  [lkx_step] covers the operation, so
+    [C08_unvested_not_delegated_all_histories_with_conversion], [C08_balance_ge_locked_conversion_step],
+    [C08_balance_ge_locked_survives_conversion_all_histories_partial] and [C08_failed_account_op_no_effect] above
+    quantify over histories that contain it.  The merged schedule is an input (C09); the step checks that at the
+    block time it has vested at least (old vested + vested part of the grant).
+
+    Whenever no unvested coin was delegated before, a successful stake message IS the schedule message followed
+    by an ordinary delegation of the vested part of this grant that Haqq's guard accepts: the missing guard is
+    implied. *)
+Theorem C08_stake_is_guarded_delegation_of_this_grants_vested_part :
+  forall s sg mg g st e l v gst gv s', lkx_wfs s -> lkx_safe s ->
+    lkx_step s (LxConvertIntoStake sg mg g st e l v gst gv) = (s', LK_OK) ->
+    exists s1, lkx_step s (LxConvertInto sg mg g st e l v) = (s1, LK_OK) /\ lx_vesting s1 = true /\
+      let x := lk_grant_vested gst gv (lk_now (lx_s s)) in
+      0 < x <= lk_bal (lx_s s1) - lk_unvested (lk_a (lx_s s1)) (lk_now (lx_s s1)) /\
+      lkx_oldv s + x <= lk_vested (lk_a (lx_s s1)) (lk_now (lx_s s1)) /\
+      lkx_step s1 (LxBase (LkDelegate x) 0%N) = (s', LK_OK).
+Proof. exact lkx_into_stake_decompose. Qed.
+Print Assumptions C08_stake_is_guarded_delegation_of_this_grants_vested_part.
+
+(** the stake step preserves "no unvested coin is delegated" (all unvested coins are in the balance) and, with
+    tracked <= actual, "balance >= locked" *)
+Theorem C08_stake_preserves_unvested_not_delegated :
+  forall s sg mg g st e l v gst gv, lkx_wfs s -> lkx_safe s ->
+    lkx_safe (fst (lkx_step s (LxConvertIntoStake sg mg g st e l v gst gv))).
+Proof. exact (fun s sg mg g st e l v gst gv => lkx_step_safe s (LxConvertIntoStake sg mg g st e l v gst gv)). Qed.
+Print Assumptions C08_stake_preserves_unvested_not_delegated.
+
+Theorem C08_stake_preserves_balance_ge_locked :
+  forall s sg mg g st e l v gst gv, lkx_wfs s -> lkx_inv s -> lkx_tracked s ->
+    lkx_inv (fst (lkx_step s (LxConvertIntoStake sg mg g st e l v gst gv))).
+Proof. exact (fun s sg mg g st e l v gst gv Hw Hi Ht => lkx_step_inv s (LxConvertIntoStake sg mg g st e l v gst gv) Hw Hi (fun _ => Ht)). Qed.
+Print Assumptions C08_stake_preserves_balance_ge_locked.
+
+(** Non-vacuity and refutation.  Grant #1 (500, fully vested and unlocked) is spent; grant #2 (1000; 250 vested)
+    is merged with the stake option.  The code stakes 250 and keeps balance 750 = unvested 750.  With the amount
+    read from the whole account after the merge (GetVestedCoins of the merged schedule = 750) the same message
+    succeeds, stakes 500 of the freshly deposited unvested coins, leaves balance 250 < unvested 750, and the
+    funder's clawback fails. *)
+Theorem C08_stake_account_wide_amount_refuted :
+  lkx_wfs lkx_stake_start /\ lkx_inv lkx_stake_start /\ lkx_safe lkx_stake_start /\ lkx_tracked lkx_stake_start /\
+  snd (lkx_step lkx_stake_start (LxBase (LkSend 500) 0%N)) = LK_OK /\ lk_bal (lx_s lkx_stake_spent) = 0 /\
+  lk_grant_vested 19990 lkx_stake_gv 20000 = 250 /\
+  lkx_step lkx_stake_spent (LxConvertIntoStake 0%N true 1000 0 25995 lkx_stake_lockup' lkx_stake_vesting' 19990 lkx_stake_gv)
+    = lkx_stake_msg LkStakeGrant lkx_stake_spent /\
+  (let r := lkx_stake_msg LkStakeGrant lkx_stake_spent in
+   snd r = LK_OK /\ lk_deleg (lx_s (fst r)) = 250 /\ lk_bal (lx_s (fst r)) = 750 /\
+   lk_unvested (lk_a (lx_s (fst r))) 20000 = 750 /\ lkx_safe (fst r) /\ lkx_inv (fst r)) /\
+  (let r := lkx_stake_msg LkStakeAccount lkx_stake_spent in
+   snd r = LK_OK /\ lk_deleg (lx_s (fst r)) = 750 /\ lk_bal (lx_s (fst r)) = 250 /\
+   lk_unvested (lk_a (lx_s (fst r))) 20000 = 750 /\ ~ lkx_safe (fst r) /\ ~ lkx_inv (fst r) /\
+   snd (lk_clawback (lx_s (fst r)) [(5000, 500); (19990, 250)] 25995) = LK_INSUFFICIENT).
+Proof. exact lkx_stake_account_wide_refuted. Qed.
+Print Assumptions C08_stake_account_wide_amount_refuted.
